@@ -169,6 +169,14 @@ def run(ck):
                 }
                 csvw = [c[4].inst for c in it.ext_calls if c[0] == "csv.DictWriter" and isinstance(c[4], VObj)]
                 call(it, cb, "clear_history")
+                _pv, _la = cb.inst.attrs.get("past_values"), cb.inst.attrs.get("last")
+                cleared = (isinstance(_pv, VList) and _pv.obj.items == [], isinstance(_la, VDict) and _la.obj.items == {})
+                # a second run after clear_history: the same number of evaluations, other values
+                call(it, cb, "on_epoch_end", st, VNum("int", T.sym("epoch3"), nonneg=True))
+                call(it, cb, "on_epoch_end", st, VNum("int", T.sym("epoch4"), nonneg=True))
+                acc["run2"] = {"pv": cb.inst.attrs.get("past_values"), "attr": it.get_attr(cb, name, None), "item": it.ops.subscript(it, cb, VConst(name), None),
+                               "get": call(it, cb, "get_value", VConst(name)), "len": it.ops.call_ext(it, "builtins.len", [cb], {}, None), "epochs": it.get_attr(cb, "epochs", None)}
+                acc["cleared"] = cleared
                 return cb, ep, pv, last, acc, name, csvw
 
             allp = paths_of(prog, th, max_paths=60, sticky=True, stubs=STUBS)
@@ -215,9 +223,31 @@ def run(ck):
                         okd = isinstance(a, VObj) and a.inst.cls is prog.cls("ObservableStatistics") and isinstance(a.inst.attrs.get("data"), VList) and \
                             a.inst.attrs["data"].obj.items is not None and len(a.inst.attrs["data"].obj.items) == 2 and a.inst.attrs["data"].obj.items[1] is v and a.inst.attrs["data"].obj.items[0] is v0
                         ck.check(okd, "C17.R2", cls + ":__getattr__/__getitem__ " + k, m.site(), "per-observable accessor does not wrap the recorded statistics")
-                pv2, last2 = cb.inst.attrs.get("past_values"), cb.inst.attrs.get("last")
-                ck.check(isinstance(pv2, VList) and pv2.obj.items == [] and isinstance(last2, VDict) and last2.obj.items == {}, "C17.R2", cls + ":clear_history", c.find_method("clear_history").site(),
+                pv2, last2 = acc["cleared"]
+                ck.check(pv2 is True and last2 is True, "C17.R2", cls + ":clear_history", c.find_method("clear_history").site(),
                          "clear_history does not reset both past_values and last")
+                # second run: everything exposed afterwards agrees with the values of the second run
+                r2 = acc["run2"]
+                items2 = r2["pv"].obj.items if isinstance(r2["pv"], VList) else None
+                ok2 = items2 is not None and len(items2) == 2 and all(isinstance(x, VTuple) and len(x.items) == 2 and isinstance(x.items[1], VDict) and x.items[1].obj.items for x in items2)
+                ck.check(ok2, "C17.R2", cls + ":second run recorded", m.site(), "after clear_history two further evaluations do not leave exactly two records")
+                if ok2:
+                    w3, w4 = items2[0].items[1].obj.items.get(name), items2[1].items[1].obj.items.get(name)
+                    ck.check(r2["get"] is w4, "C17.R2", cls + ":get_value after a second run", c.find_method("get_value").site(), "after clear_history and a second run get_value() does not return the latest value of the second run")
+                    et2 = r2["epochs"].term if isinstance(r2["epochs"], VTens) else None
+                    ck.check(et2 == T.stack0(T.sym("epoch3"), T.sym("epoch4")), "C17.R2", cls + ":epochs after a second run", m.site(), "epochs after the second run: %r" % (et2,))
+                    for k in ("attr", "item"):
+                        a2 = r2[k]
+                        if cls == "MetricEvaluator":
+                            want2 = T.stack0(*[(getattr(w, "term", None) if getattr(w, "term", None) is not None else T.sym("val:" + w.tag)) if isinstance(w, VUnknown) else num_term(w) for w in (w3, w4)]) \
+                                if all(isinstance(w, VUnknown) or num_term(w) is not None for w in (w3, w4)) else None
+                            got2 = a2.term if isinstance(a2, VTens) else None
+                            ck.check(None if (want2 is None or got2 is None) else got2 == want2, "C17.R2", cls + ":%s after a second run" % k, m.site(),
+                                     "after clear_history and a second run with as many evaluations, the per-name array is %r; the second run recorded %r (values of the first run are served)" % (got2, want2))
+                        else:
+                            dl = a2.inst.attrs.get("data") if isinstance(a2, VObj) else None
+                            okd2 = isinstance(dl, VList) and dl.obj.items is not None and len(dl.obj.items) == 2 and dl.obj.items[0] is w3 and dl.obj.items[1] is w4
+                            ck.check(okd2, "C17.R2", cls + ":%s after a second run" % k, m.site(), "after clear_history and a second run the per-observable accessor does not wrap the second run's statistics")
                 # ---------------- R3 CSV header == row keys
                 fields = cb.inst.attrs.get("csv_fields")
                 fl = [x.value for x in it.concrete_items(fields)] if fields is not None and it.concrete_items(fields) is not None else None
@@ -297,7 +327,7 @@ def run(ck):
                         mc = [u for u in fmt if u[0] == "meta_fn"]
                         ck.check(len(mc) == 1 and len(mc[0][1]) == 2 and mc[0][1][0] is st and mc[0][1][1] is ep, "C17.R4", inst + ":callable gets (nn_state, epoch)", ssite,
                                  "the metadata callable is not called once with (nn_state, epoch)")
-                        ck.check(isinstance(payload, VUnknown) and payload.tag == "ret(meta_fn)", "C17.R4", inst + ":callable result saved", ssite, "the result of the metadata callable is not what is saved")
+                        ck.check(isinstance(payload, VUnknown) and payload.tag.startswith("ret(meta_fn)"), "C17.R4", inst + ":callable result saved", ssite, "the result of the metadata callable is not what is saved")
                     # the file name: file_name.format(epoch)
                     fcalls = _format_calls(it)
                     ck.check(any(a and a[0] is ep for a in fcalls), "C17.R4", inst + ":file named by the epoch", ms.find_method("on_epoch_end").site(), "the file name is not formatted with the epoch number")
